@@ -237,28 +237,45 @@ func runC17(c *Ctx) {
 					return
 				}
 				n++
-				nAbs, key := 0, ""
-				conds := c.condsOf(cl.Block())
-				for _, cnd := range conds {
-					if m := absent.FindStringSubmatch(cnd); m != nil {
-						nAbs++
-						key = m[1] + m[2]
+				// the conditions at the generating call; when it sits in an unexported helper that is itself
+				// unconditional about the option, those at the helper's call sites
+				var check func(conds []string, where string, g *ssa.Function, d int)
+				check = func(conds []string, where string, host *ssa.Function, d int) {
+					nAbs, key := 0, ""
+					for _, cnd := range conds {
+						if m := absent.FindStringSubmatch(cnd); m != nil {
+							nAbs++
+							key = m[1] + m[2]
+						}
 					}
-				}
-				if nAbs != 1 {
-					okR = false
-					detail = append(detail, fmt.Sprintf("%s at %s: %d absence conditions in %v", short(f.String()), c.pos(cl.Pos()), nAbs, conds))
-					return
-				}
-				for _, cnd := range conds {
-					if !absent.MatchString(cnd) && strings.Contains(cnd, key) {
+					if nAbs == 0 && d < 2 && host.Object() != nil && !host.Object().Exported() {
+						sites := 0
+						for _, hf := range fs {
+							for _, hc := range callsTo(hf, host) {
+								sites++
+								check(c.condsOf(hc.Block()), short(hf.String())+" at "+c.pos(hc.Pos()), hf, d+1)
+							}
+						}
+						if sites > 0 {
+							return
+						}
+					}
+					if nAbs != 1 {
 						okR = false
-						detail = append(detail, short(f.String())+": also conditional on "+cnd)
+						detail = append(detail, fmt.Sprintf("%s: %d absence conditions in %v", where, nAbs, conds))
+						return
+					}
+					for _, cnd := range conds {
+						if !absent.MatchString(cnd) && strings.Contains(cnd, key) {
+							okR = false
+							detail = append(detail, where+": also conditional on "+cnd)
+						}
 					}
 				}
+				check(c.condsOf(cl.Block()), short(f.String())+" at "+c.pos(cl.Pos()), f, 0)
 			})
 		}
-		c.Check("C17.D2", "random-keys-only-for-absent-options", okR && n >= 2, 0, fmt.Sprintf("%d uses of crypto/rand.Reader in the creation call tree, each under exactly the condition that its key option is absent %v", n, detail))
+		c.Check("C17.D2", "random-keys-only-for-absent-options", okR && n >= 1, 0, fmt.Sprintf("%d uses of crypto/rand.Reader in the creation call tree, each under exactly the condition that its key option is absent %v", n, detail))
 	}
 	c.Min("C17.D2", 1)
 
